@@ -18,7 +18,12 @@ func mkAttrs(kv ...string) []html.Attribute {
 	return out
 }
 
-func goAttrs(p *bluemonday.Policy, elem string, attrs []html.Attribute) string {
+func goAttrs(p *bluemonday.Policy, elem string, attrs []html.Attribute) (res string) {
+	defer func() {
+		if r := recover(); r != nil {
+			res = "A PANIC " + fmt.Sprint(r)
+		}
+	}()
 	out, found := bluemonday.VerifSanitizeAttrs(p, elem, attrs)
 	if !found {
 		return "A 0 _"
